@@ -1,14 +1,17 @@
 (* C02/Props.v -- the proof obligations for property C02 "Marshal then Unmarshal gives back the value",
    and nothing else.  Model shared with C12 (C12/Model.v); "equal value" is equality of meaning
    ([denote_native], C12/Denote.v) across Go types and exact equality for the same Go type.
-   Witnesses for the excluded regions (= known findings) are in C02/Refuted.v. *)
+   The defects found with this check and C12's were repaired in /repo (see C12/Props.v); the theorems no
+   longer exclude those regions.  Witnesses for what is still excluded (the kept findings F-C02-1,
+   F-C02-2 and null into an array) are in C02/Refuted.v. *)
 From GocqlV Require Import Lib.Base Gen.Consts C12.Model C12.Spec C12.Denote
   C12.Proofs1 C12.Proofs2 C12.Proofs3 C12.Proofs4 C12.Proofs5 C02.Proofs1 C02.Proofs2.
 
 (* Every native column type, every Go source and every documented Go target of the model's universe:
    if Marshal returns bytes and Unmarshal of them succeeds, the stored value means what the source value
-   meant (so no silent loss of precision) -- outside the regions of the known findings ([clean_native] on
-   the way in, [dec_clean] on the way out). *)
+   meant (so no silent loss of precision).  Excluded: F-C02-1 in both directions (unsigned source above the
+   column's signed maximum in [clean_native], negative value into an unsigned target in [dec_clean]), the
+   int64 overflow of millisecond timestamps, and the documented conflations listed at [dec_clean]. *)
 Theorem C02_rt_native : forall id g b t g' x,
   wf_native g -> clean_native id g -> denote_native id g = Some (Some x) ->
   marshal_native id g = Ok (Some b) ->
@@ -78,9 +81,8 @@ Proof. exact rt_list_lift. Qed.
 Print Assumptions C02_rt_list_lift.
 
 (* Tuples written from []interface{} and read into []interface{} of pointers, any arity, any component
-   types: component round trips lift to the tuple; an untyped nil component is -1 / nil data.  (A typed
-   nil is written with length 0: that is F-C12-4, visible here as [comp_rt] handing the decoder empty
-   bytes rather than nil.) *)
+   types: component round trips lift to the tuple; a component that is nil or that Marshal turns into nil
+   is -1 on the wire and nil data for the decoder, anything else its length and bytes. *)
 Theorem C02_rt_tuple_lift : forall pv es l ts h bs,
   tuple_rt pv es l ts h ->
   tuple_items true (map (marshal pv) es) l = Ok bs ->
